@@ -25,7 +25,12 @@ def run(tier):
     return run_check("C14", tier, rule, assumptions,
                      mc_runs=[("MC_FVM1D", "MC_FVM1D_shift.cfg", 16),
                               ("MC_FVM2D", "MC_FVM2D_shift.cfg" if tier == "quick" else "MC_FVM2D_shift_f.cfg", 16)],
-                     groups=[("Judge_FVM1D", recs1 + toks1), ("Judge_FVM2D", recs2 + toks2)], prefixes=["C14"], sig_of=sig_of)
+                     groups=[("Judge_FVM1D", recs1 + toks1), ("Judge_FVM2D", recs2 + toks2)], prefixes=["C14"], sig_of=sig_of,
+                     symbolic=("Apa_Recon", ["InvSeam", "InvSeamUniform"],
+                               "model level, beyond the lattice: Apa_Recon.tla proves with Apalache/Z3 that the distance used for the "
+                               "periodic seam gradient, xc[0] + length - xc[-1], is half the sum of the two end cells for EVERY mesh and "
+                               "every origin, hence the interior centre distance on every uniform mesh (the seam gradient is an interior "
+                               "gradient); the variant that assumes an origin at 0 is refuted"))
 
 
 if __name__ == "__main__":
